@@ -59,7 +59,9 @@ def _used_objects(kind):
 
 def build(tier, seed):
     set_tier(tier)
-    tasks = [standin_task(PROP, "projects.end_to_end", lambda: __import__("bounded.c16", fromlist=["x"]).search(("end_to_end",)), "ford.main on project A (externalize) then project B (external)",
+    tasks = [standin_task(PROP, "parser.access_product", lambda: __import__("bounded.c04", fromlist=["x"]).search(), "ford.sourceform (real parser)",
+                          "what an access statement names is private / public whatever the letter case of the name: a private entity is not use-associated and cannot hide the host's own", "access product of C04"),
+             standin_task(PROP, "projects.end_to_end", lambda: __import__("bounded.c16", fromlist=["x"]).search(("end_to_end",)), "ford.main on project A (externalize) then project B (external)",
                           "names re-exported by a module of an external project (renamed ones included) resolve in B to A's entities under their local names; B's own entities win", "1 project pair"),
              Task(f"{PROP}.S.deplist", PROP, "Project.correlate deplist", lambda: __import__("contracts.deps", fromlist=["x"]).deplist_obligations(PROP, lambda: __import__("bounded.c07", fromlist=["x"]).search())),
              Task(f"{PROP}.S.block_scope", PROP, "statement dispatch", lambda: scoping.block_scope_guards(PROP, lambda: __import__("bounded.c07", fromlist=["x"]).search())),
